@@ -31,10 +31,14 @@
     [cfrac (rk_comp r) k j == cfrac (lw_comp L) k j] for all [k], [j]; [csim s rb] = [Forall2 rack_csim];
     [tr_op o]: [o] is a transfer or a record-only call.  Proved for pipetting steps, transfers and programs of
     transfers, and (last section of this file) for [distribute] and programs of transfers and distributes.
-    The section "the rendered worklist" relates the TEXT of the records to the tracked volumes. *)
+    The composition clause is about liquid that ORIGINATES from initially filled wells and is moved by
+    transfer / distribute; for a stand-alone aspirate followed by a stand-alone dispense it is false
+    ([C01_composition_dispense_refuted]): a bare dispense has no origin in the tracking.
+    The section "the rendered worklist" relates the TEXT of the records to the tracked volumes, with the
+    interpreter's limit checks off ([C01_run_text_exact / _bound]) and on ([C01_run_text_checked]). *)
 From Robo Require Import Prelude Str Wells Utils Labware Tips Records Partition Params Worklist EvoCmd
   Program Invariants Robot LabwareProofs RefinementProofs.
-From Robo Require Import Gwl RecordsProofs RefinementTextProofs.
+From Robo Require Import Gwl RecordsProofs RefinementTextProofs RefinementExtraProofs.
 From Coq Require Import Sorting.Sorted.
 #[local] Open Scope Q_scope.
 
@@ -360,8 +364,10 @@ Proof. vm_compute. repeat split; reflexivity. Qed.
     [hit_ad d names geoms label p k j]: label finds rack number [k] and position [p] is real well [j] of it;
     [hits d names geoms recs k j]: number of A / D records of [recs] that address real well [j] of rack [k];
     [racks_near E rs rs']: same names and geometries, same limits, |volume' - volume| <= E k j for well j of rack k;
-    [op_text_ok o]: DiTi index of set_diti, diti_reuse and multi_disp of distribute are not negative (the methods
-      do not validate them) and the volume of distribute is an int. *)
+    [op_text_ok o]: the volume of a distribute call is an int (a float volume is written as Python's repr and is
+      outside [r_int]).  Nothing is asked of the DiTi index of set_diti or of diti_reuse / multi_disp of
+      distribute any more: the methods reject negative values (fixed in /repo by commit 26768d9, finding F21),
+      so an accepted call has non-negative ones and a rejected call appends nothing. *)
 
 (** C01_rendered_record, A / D: the text of an A or D record that [aspirate_well] / [dispense_well] can emit is
     read back as a record addressing the same rack label and position, all other text fields the same, with a
@@ -484,6 +490,47 @@ Theorem C01_run_text_bound : forall s0 ops,
 Proof. exact run_file_bound. Qed.
 Print Assumptions C01_run_text_bound.
 
+(** The CHECKED replay ([interp true]: a step that takes a well below min_volume or above max_volume is
+    refused).  Every call accepted: the records replay within the limits to the tracked volumes (the
+    fully-accepted case of C03_prefix_safe, with the resulting robot; [dst_positions_distinct] is part of
+    [op_ok]) ... *)
+Theorem C01_run_checked : forall s0 ops,
+  good_state s0 -> w_recs (st_wl s0) = [] ->
+  forallb wl_op ops = true -> Forall (op_ok s0) ops ->
+  Forall (fun e => e = None) (snd (run s0 ops)) ->
+  exists rb, interp true (w_dev (st_wl s0)) (robot_of (st_lw s0)) (w_recs (st_wl (fst (run s0 ops)))) = Some rb /\
+             sim (fst (run s0 ops)) rb.
+Proof. exact run_refines_checked. Qed.
+Print Assumptions C01_run_checked.
+
+(** ... executing the text with the checks gives the robot that executing the records with the checks gives
+    (two decimals, int R volumes) ... *)
+Theorem C01_rendered_exact_checked : forall d rb recs rb1,
+  Forall rec_valid recs -> Forall r_int recs -> Forall cents_ok recs ->
+  interp true d rb recs = Some rb1 ->
+  exists rb1', interp_text true d rb (map render recs) = Some rb1' /\
+               Forall2 rack_eqv (rb_racks rb1) (rb_racks rb1').
+Proof. exact rendered_exact_checked. Qed.
+Print Assumptions C01_rendered_exact_checked.
+
+(** ... hence, under the hypotheses of C01_run_text_exact, the TEXT of the worklist replays within the limits
+    to the tracked volumes; the unchecked replay is a consequence *)
+Theorem C01_run_text_checked : forall s0 ops,
+  good_state s0 -> w_recs (st_wl s0) = [] ->
+  forallb wl_op ops = true -> Forall (op_ok s0) ops -> Forall op_text_ok ops ->
+  Forall (fun e => e = None) (snd (run s0 ops)) ->
+  Forall cents_ok (w_recs (st_wl (fst (run s0 ops)))) ->
+  exists rb, interp_text true (w_dev (st_wl s0)) (robot_of (st_lw s0))
+               (map render (w_recs (st_wl (fst (run s0 ops))))) = Some rb /\
+             sim (fst (run s0 ops)) rb.
+Proof. exact run_file_exact_checked. Qed.
+Print Assumptions C01_run_text_checked.
+
+Theorem C01_text_checked_implies_unchecked : forall d rb lines rb',
+  interp_text true d rb lines = Some rb' -> interp_text false d rb lines = Some rb'.
+Proof. exact interp_text_unchecked. Qed.
+Print Assumptions C01_text_checked_implies_unchecked.
+
 (** non-vacuity: the example program above; its file, executed, gives the tracked volumes *)
 Example C01_example_text_hyps :
   Forall op_text_ok C01_ex_prog /\
@@ -491,7 +538,7 @@ Example C01_example_text_hyps :
 Proof.
   split.
   - unfold C01_ex_prog. repeat (apply Forall_cons || apply Forall_nil); try exact I.
-    cbn. split; [lia|]. split; [lia|]. eexists. reflexivity.
+    cbn. eexists. reflexivity.
   - set (recs := w_recs _). vm_compute in recs. subst recs.
     repeat (apply Forall_cons || apply Forall_nil); cbn [cents_ok ad_volume]; try exact I;
       match goal with |- exists z, ?v * 100 == _ => exists (Qnum (Qred (v * 100))); vm_compute; reflexivity end.
@@ -504,6 +551,59 @@ Example C01_example_text_run :
   | None => False
   end.
 Proof. vm_compute. reflexivity. Qed.
+
+(** An accepted program on a FluentWorklist ([ex_state Fluent]: trough positions are 1 + column): a transfer
+    from the trough (two virtual rows of column 1, one of column 2) to the plate with a label and wash scheme
+    2, a stand-alone dispense with a 2-D well argument (read column-major), a transfer of 1900 uL that is
+    split into 950 + 950.  All hypotheses of C01_run, C01_run_text_exact and C01_run_text_checked hold ... *)
+Definition C01_ex_prog_fluent : list op :=
+  [OTransfer 1 (A1 ["A01"; "C01"; "B02"]%string) 0 (A1 ["A02"; "B02"; "B01"]%string) (A1 [40; 125 # 10; 99 # 2])
+             (Some "source"%string) (SInt 2) "auto"%string kw_default;
+   ODispense 0 (A2 [["A01"; "A02"]; ["B01"; "B02"]]%string) (A0 (XQ (7 # 2))) None None kw_default;
+   OTransfer 0 (A1 ["A01"%string]) 0 (A1 ["B02"%string]) (A1 [1900]) None SFlush "auto"%string kw_default;
+   OCommit].
+
+Example C01_example_fluent_hyps :
+  good_state (ex_state Fluent) /\ w_recs (st_wl (ex_state Fluent)) = [] /\
+  forallb wl_op C01_ex_prog_fluent = true /\ Forall (op_ok (ex_state Fluent)) C01_ex_prog_fluent /\
+  Forall op_text_ok C01_ex_prog_fluent /\
+  Forall (fun e => e = None) (snd (run (ex_state Fluent) C01_ex_prog_fluent)) /\
+  Forall cents_ok (w_recs (st_wl (fst (run (ex_state Fluent) C01_ex_prog_fluent)))).
+Proof. exact fluent_prog_hyps. Qed.
+
+(** ... so the three theorems apply to it (instances, every hypothesis discharged by the Example above) ... *)
+Example C01_example_fluent_instances :
+  let s0 := ex_state Fluent in
+  let recs := w_recs (st_wl (fst (run s0 C01_ex_prog_fluent))) in
+  (exists rb, interp false Fluent (robot_of (st_lw s0)) recs = Some rb /\ sim (fst (run s0 C01_ex_prog_fluent)) rb) /\
+  (exists rb, interp_text false Fluent (robot_of (st_lw s0)) (map render recs) = Some rb /\
+              sim (fst (run s0 C01_ex_prog_fluent)) rb) /\
+  (exists rb, interp_text true Fluent (robot_of (st_lw s0)) (map render recs) = Some rb /\
+              sim (fst (run s0 C01_ex_prog_fluent)) rb).
+Proof.
+  destruct C01_example_fluent_hyps as (H1 & H2 & H3 & H4 & H5 & H6 & H7).
+  split; [exact (C01_run _ _ H1 H2 H3 H4 H6)|].
+  split; [exact (C01_run_text_exact _ _ H1 H2 H3 H4 H5 H6 H7)|exact (C01_run_text_checked _ _ H1 H2 H3 H4 H5 H6 H7)].
+Qed.
+
+(** ... and, as a computation: nothing refused, 22 records, the file replayed with the limit checks gives the
+    tracked volumes *)
+Example C01_example_fluent_run :
+  let r := run (ex_state Fluent) C01_ex_prog_fluent in
+  snd r = [None; None; None; None] /\
+  map render (w_recs (st_wl (fst r))) =
+    ["C;source"; "A;T4;;;2;;49.50;;;;"; "D;big;;;2;;49.50;;;;"; "W2;";
+     "A;T4;;;1;;40.00;;;;"; "D;big;;;3;;40.00;;;;"; "W2;";
+     "A;T4;;;1;;12.50;;;;"; "D;big;;;4;;12.50;;;;"; "W2;";
+     "D;big;;;1;;3.50;;;;"; "D;big;;;2;;3.50;;;;"; "D;big;;;3;;3.50;;;;"; "D;big;;;4;;3.50;;;;";
+     "A;big;;;1;;950.00;;;;"; "D;big;;;4;;950.00;;;;"; "F;";
+     "A;big;;;1;;950.00;;;;"; "D;big;;;4;;950.00;;;;"; "F;"; "B;"; "B;"]%string /\
+  map lw_vols (st_lw (fst r)) = [[2207 # 2; 87 # 2; 153; 1916]; [895 # 2; 901 # 2]] /\
+  match interp_text true Fluent (robot_of (st_lw (ex_state Fluent))) (map render (w_recs (st_wl (fst r)))) with
+  | Some rb => map (fun r0 => map Qred (rk_vols r0)) (rb_racks rb) = map lw_vols (st_lw (fst r))
+  | None => False
+  end.
+Proof. vm_compute. repeat split; reflexivity. Qed.
 
 (** a volume with three decimals: 12.345 is written as 12.34; the robot that executes the file is 1/200 off in
     the two wells, each addressed by one record *)
@@ -650,6 +750,51 @@ Example C01_example_distribute_run :
   | Some rb => forallb (fun p => C01_fractions_agree (fst p) (snd p)) (combine (st_lw (fst r)) (rb_racks rb)) = true /\
                map (fun r0 => map Qred (map (fun j => cfrac (rk_comp r0) "big.A01"%string j) [0; 1; 2; 3]%nat))
                    (rb_racks rb) = [[1; 1 # 106; 0; 1 # 106]; [1 # 6; 1 # 106; 0; 0]]
+  | None => False
+  end.
+Proof. vm_compute. repeat split; reflexivity. Qed.
+
+(** The composition clause for ALL worklist operations,
+      forall s0 ops, good_state s0 -> cstate s0 -> w_recs (st_wl s0) = [] -> forallb wl_op ops = true ->
+        Forall (op_ok s0) ops -> Forall (fun e => e = None) (snd (run s0 ops)) ->
+        exists rb, interp false (w_dev (st_wl s0)) (robot_of (st_lw s0)) (w_recs (st_wl (fst (run s0 ops)))) = Some rb /\
+                   csim (fst (run s0 ops)) rb
+    ([C01_composition_run_distribute] with [wl_op] in place of [trd_op]), is FALSE: for a stand-alone aspirate
+    followed by a stand-alone dispense,
+      [OAspirate 0 ["A01"] 100; ODispense 1 ["A01"] 100]  on  [ex_state Evo],
+    both calls are accepted, the file replays and the VOLUMES agree ([sim], C01_run), but the robot's tip
+    carries the liquid of plate well A01 into trough column 1 (fraction of "big.A01" there: 100 / 600 = 1/6),
+    while the Labware tracking of a plain [dispense] without [compositions=] adds liquid of unknown origin
+    (tracked fraction 0).  The property speaks of "liquid that originates from initially filled wells" moved by
+    transfer / distribute, where the tracking knows the origin: that reading is what
+    [C01_composition_run_distribute] proves (strongest true variant, operations [trd_op]); a bare dispense has
+    no origin in the tracking, so no statement about its composition can hold. *)
+Theorem C01_composition_dispense_refuted :
+  exists s0 ops,
+    good_state s0 /\ cstate s0 /\ w_recs (st_wl s0) = [] /\ forallb wl_op ops = true /\
+    Forall (op_ok s0) ops /\ Forall (fun e => e = None) (snd (run s0 ops)) /\
+    exists rb L r,
+      interp false (w_dev (st_wl s0)) (robot_of (st_lw s0)) (w_recs (st_wl (fst (run s0 ops)))) = Some rb /\
+      sim (fst (run s0 ops)) rb /\
+      nth_error (st_lw (fst (run s0 ops))) 1 = Some L /\ nth_error (rb_racks rb) 1 = Some r /\
+      cfrac (rk_comp r) "big.A01"%string 0 == 1 # 6 /\ cfrac (lw_comp L) "big.A01"%string 0 == 0 /\
+      ~ csim (fst (run s0 ops)) rb.
+Proof. exact composition_dispense_refuted. Qed.
+Print Assumptions C01_composition_dispense_refuted.
+
+(** the witness, as a computation: the two records, equal volumes, different fractions of "big.A01" in trough
+    column 1 (robot 1/6, tracked 0) *)
+Example C01_example_dispense_composition :
+  let r := run (ex_state Evo)
+             [OAspirate 0 (A1 ["A01"%string]) (A0 (XQ 100)) None kw_default;
+              ODispense 1 (A1 ["A01"%string]) (A0 (XQ 100)) None None kw_default] in
+  snd r = [None; None] /\
+  map render (w_recs (st_wl (fst r))) = ["A;big;;;1;;100.00;;;;"; "D;T4;;;1;;100.00;;;;"]%string /\
+  map lw_vols (st_lw (fst r)) = [[2900; 0; 100; 0]; [600; 500]] /\
+  match interp false Evo (robot_of (st_lw (ex_state Evo))) (w_recs (st_wl (fst r))) with
+  | Some rb => map rk_vols (rb_racks rb) = map lw_vols (st_lw (fst r)) /\
+               map (fun r0 => Qred (cfrac (rk_comp r0) "big.A01"%string 0%nat)) (rb_racks rb) = [1; 1 # 6] /\
+               map (fun L => Qred (cfrac (lw_comp L) "big.A01"%string 0%nat)) (st_lw (fst r)) = [1; 0]
   | None => False
   end.
 Proof. vm_compute. repeat split; reflexivity. Qed.
